@@ -586,4 +586,20 @@ theorem tr_sensitive (n : Nat) (ih : Trans cfg sfh n) (x : Ty) (b c : Ty) (hw : 
   simp only [Ty.w] at hw
   exact ih x y z (by omega) ⟨fa, fb, fc, wb, wc⟩ h1 h2
 
+theorem tr_iterator (n : Nat) (ih : Trans cfg sfh n) (x : Ty) (b c : Ty) (hw : (Ty.iterator x).w + b.w + c.w ≤ n + 1)
+    (H : THyp cfg (.iterator x) b c)
+    (h1 : asgRecv cfg sfh (.iterator x) b = true) (h2 : asgRecv cfg sfh b c = true) : asgRecv cfg sfh (.iterator x) c = true := by
+  have fa := H.fa; unfold Ty.TF at fa
+  unfold asgRecv at h1
+  cases b <;> simp only [] at h1 <;> (first | contradiction | skip)
+  rename_i y
+  have fb := H.fb; unfold Ty.TF at fb
+  have wb := H.wb; unfold Ty.WF at wb
+  unfold asgRecv at h2 ⊢; cases c <;> simp only [] at h2 ⊢ <;> (first | contradiction | skip)
+  rename_i z
+  have fc := H.fc; unfold Ty.TF at fc
+  have wc := H.wc; unfold Ty.WF at wc
+  simp only [Ty.w] at hw
+  exact ih x y z (by omega) ⟨fa, fb, fc, wb, wc⟩ h1 h2
+
 end Pcore.Lat
